@@ -501,7 +501,7 @@ func c29Setup(t string) {
 
 func init() {
 	register("C29.idle", &explore.Scenario{
-		ID: "C29", Name: "live queries while flows are idle: conversations whose stored orientation depends on the flow still being known", Level: "exploration",
+		ID: "C29", Name: "live queries while flows are idle: conversations whose stored orientation depends on the flow still being known", Level: "model_checking",
 		Rule:  "cases = schedules over the conversations NTP 123<->123 (n1 request / n2 reply) and TCP 40000->50000 (t1 SYN / t2, t3 later segments) with write-outs (R) between their packets {n1 R n2 | n1 R R n2 | n1 n2 R n2 R n1 | t1 R t2 t3 | t1 t2 R t3 R t2 | n1 t1 R n2 t2 (thorough 5 more)} x 2 query specs; EVERY subset of the schedule's positions carries a live query through the real QueryRunner with WithLiveData; after a closing write-out the database (raw query with time) must equal the database of the same schedule without any live query (differential oracle only: what is stored for these conversations depends on the history). non-trivial = live queries answered while flows were stored or in memory",
 		Cases: func(t string) int { return len(c29IdleSchedules(t)) * len(c29IdleSpecs(t)) * 4 },
 		Bound: func(string) int { return 0 },
